@@ -83,6 +83,18 @@ RollupOK(blocks, types, base, ratio, out) ==
        IF Exact(types, c.f) THEN c.v = RollupAgg(types, blocks, Key(c), base, ratio)
                             ELSE c.v \in {d.v : d \in RollupSources(blocks, Key(c), base, ratio)}
 
+\* the same with a memory of what the source files held EARLIER in the history (hist: pairs <<target key, value>>): a
+\* compaction of the source family between two rollups merges two files that both hold a slot of a last / first field into
+\* one value; the target may hold the other one, contributed by a file that no longer exists -- still "any contributed value"
+RollupOKHist(blocks, types, base, ratio, out, hist) ==
+  /\ WellFormed(out)
+  /\ Keys(out) = RollupKeys(blocks, base, ratio)
+  /\ \A c \in out :
+       IF Exact(types, c.f) THEN c.v = RollupAgg(types, blocks, Key(c), base, ratio)
+                            ELSE c.v \in ({d.v : d \in RollupSources(blocks, Key(c), base, ratio)}
+                                          \cup {p[2] : p \in {q \in hist : q[1] = Key(c)}})
+RollupPairs(blocks, base, ratio) == {<<RollupKey(c, base, ratio), c.v>> : c \in UNION {blocks[i] : i \in 1..Len(blocks)}}
+
 \* ---- several source families into ONE target family (C04): all hours of all days of a month roll up into the month
 \* family of the 1h target, all hours of a day into the day family of the 5min target.  Every source family has its
 \* own base slot; with its slots moved to base * ratio + slot (the slot on the source-interval axis of the target
